@@ -351,7 +351,7 @@ def svdtf(source, target):
     M = torch.einsum('...Na, ...Nb -> ...ab', target, source)
     U, S, Vh = torch.linalg.svd(M)
     R = U @ Vh
-    mask = (R.det() + 1).abs() < 1e-6
+    mask = R.det() < 0
     U[..., -1] = torch.where(mask[..., None], -U[..., -1], U[..., -1])
     R = U @ Vh
     t = ctntarget.mT - R @ ctnsource.mT
